@@ -14,6 +14,8 @@ RULES = {
              "query (owner / spender / proposal id)",
     "R20.5": "cursor encoding matches the key: address keys use ExclusiveRaw(<bytes of the address string>) or "
              "Bound::exclusive(<validated address>); numeric ids use Bound::exclusive(id)",
+    "R20.7": "the by-spender allowance listing ranges over an index that is kept in step with the owner map on every path and is "
+             "rebuilt completely by migrate (shared with C19 R19.1 / R19.2 / R19.4)",
     "R20.6": "cw3-flex ListVoters forwards start_after and limit unchanged to the group's ListMembers",
 }
 
@@ -82,6 +84,14 @@ def run(ctx):
                detail="listing %s::%s not found with and without cursor (paths %d)" % (k[0], k[1], found.get(k, 0)))
     ctx.floor("R20.1", "listing paths", seen, 30)
     check_flex_voters(ctx)
+    from . import C19
+    sub = type(ctx)(ctx.pid, ctx.facts, ctx.engine, ctx.tier, ctx.tree_hash)
+    C19.run(sub)
+    for k in sub.order:
+        o = sub.obs[k]
+        if o.rule in ("R19.1", "R19.2", "R19.4") and not o.key.startswith(("anchor", "floor")):
+            ctx.ob("R20.7", o.key, True if o.status == "discharged" else (None if o.status == "undecided" else False),
+                   detail="; ".join(o.details), sites=o.sites, sample=o.sample, trivial=o.trivial)
 
 
 def check_listing(ctx, p, key, crate, variant, spec, take, rng):
